@@ -235,6 +235,10 @@ func dumpFunc(p *Prog, fn *ssa.Function) {
 				fmt.Printf("  call %s#%d  block %d %s\n", k, ord[k], b.Index, p.fset.Position(ins.Pos()))
 				ord[k]++
 			}
+			if mu, ok := ins.(*ssa.MapUpdate); ok {
+				fmt.Printf("  mapupdate#%d  block %d %s\n", ord["$mapupdate"], b.Index, p.fset.Position(mu.Pos()))
+				ord["$mapupdate"]++
+			}
 			if st, ok := ins.(*ssa.Store); ok {
 				switch st.Addr.(type) {
 				case *ssa.IndexAddr, *ssa.FieldAddr:
